@@ -19,9 +19,10 @@ def run(lines, out, args):
             pos += 1
             if t in (")", "]"):
                 return acc, pos, t
-            if t in ("(", "["):
+            if t in ("(", "[", "G("):
                 inner, pos, close = parse(toks, pos)
-                acc.append(tuple(inner) if t == "(" else list(inner))
+                # G( ... ) = a one-shot iterable (generator): legal wherever a sequence of interfaces is
+                acc.append(tuple(inner) if t == "(" else list(inner) if t == "[" else (x for x in list(inner)))
             elif t == "D(":
                 inner, pos, close = parse(toks, pos)
                 acc.append(Declaration(*inner))
